@@ -1,6 +1,7 @@
 """C03 -- emulator state equals the ordered product of gate unitaries on |0..0>."""
 from collections import Counter
 
+import numbers
 import numpy as np
 
 from .. import sx, gen, lib, meaning as M, monitors, minimise, gateset, gateset_sig, refexec, apiroute
@@ -17,7 +18,7 @@ RULE = ("executable programs over the harness native gate set (1-,2-,3-qubit, sy
 ASSUMPTIONS = ["harness native gate set and its matrices (vf/gateset_sig.py)", "reference executor vf/refexec.py",
                "programs rejected by the emulator with JaqalError are judged by C12/C13/C14, not here"]
 TIERS = {"quick": {"shards": 8, "budget_s": 180}, "thorough": {"shards": 16, "budget_s": 420}}
-REQUIRE = {"overrides-applied-after-macro-expansion:PA": 60, "overrides-applied-after-macro-expansion:ML": 100, "overrides-applied-after-macro-expansion:PML": 100, "run-through-text-entry-point:string": 200, "run-through-text-entry-point:file": 200, "calls-of-stretched-variants": 500, "sections-with-a-repeated-prepare": 300, "busy-gates-with-unitary-inserted": 300, "keyword-calls-in-another-order": 500, "gate-set-variant:B": 100, "gate-set-variant:A": 100, "states-compared": 300, "gate:2q-asym": 50, "gate:3q": 20, "via-alias": 100, "via-macro": 50, "override-used": 30,
+REQUIRE = {"overrides-applied-after-macro-expansion:PA": 60, "overrides-applied-after-macro-expansion:ML": 100, "overrides-applied-after-macro-expansion:PML": 100, "run-through-text-entry-point:string": 200, "run-through-text-entry-point:file": 200, "calls-of-stretched-variants": 500, "sections-with-a-repeated-prepare": 300, "busy-gates-with-unitary-inserted": 300, "keyword-calls-in-another-order": 500, "gate-set-variant:B": 100, "gate-set-variant:A": 100, "states-compared": 300, "sections-applying-a-gate-at-near-twin-arguments": 500, "gate:2q-asym": 50, "gate:3q": 20, "via-alias": 100, "via-macro": 50, "override-used": 30,
            "loop-in-section": 30, "probe:basis": 50, "probe:moved-alias": 100}
 ATOL = 1e-9
 
@@ -30,6 +31,15 @@ def judge(case):
     if st != "ok":
         return st, [], None
     P = s.P
+    written_differs = None
+    try:
+        # the reference below is read from the circuit the parser made; the program AS WRITTEN (the model the text was
+        # rendered from) has to mean the same, number for number, qubit for qubit
+        tree_w = M.full_meaning(M.core_from_sx(prog), env=ov or {})
+        if not M.tree_equal(tree_w, s.tree):
+            written_differs = M.first_diff(tree_w, s.tree)
+    except (M.MeaningError, M.OracleError):
+        tree_w = None
     try:
         scan = P.flat_scan()
     except refexec.Reject as ex:
@@ -41,7 +51,9 @@ def judge(case):
     if scan["trailing_gates"]:
         return "skipped:trailing-gates", [], None
     subs = scan["subs"]
-    info = {"subs": len(subs), "n": s.n}
+    info = {"subs": len(subs), "n": s.n, "written": int(tree_w is not None)}
+    if written_differs is not None:
+        return "ok", [("circuit-as-parsed-differs-from-the-program-as-written", {"diff": written_differs})], info
     if case.get("api") is not None:
         # the same circuit re-assembled from core objects, gate statements made by keyword calls in random order
         oa = lib.outcome(apiroute.rebuild_with_keyword_calls, s.c, case["api"])
@@ -117,7 +129,9 @@ def judge(case):
     info["compared"] = compared
 
     def norm_log(log):
-        return Counter((n, tuple(round(float(a), 10) for a in args)) for n, args in log)
+        # integers exactly (2**53 and 2**53 + 1 are different arguments), other numbers to ten places
+        return Counter((n, tuple(int(a) if (isinstance(a, numbers.Integral) and not isinstance(a, bool)) else round(float(a), 10) for a in args))
+                       for n, args in log)
 
     if not fails and norm_log(observed_log) != norm_log(ref_log):
         a, b = norm_log(observed_log), norm_log(ref_log)
@@ -170,6 +184,7 @@ def process(ctx, case, seen):
         return
     rec.count("judged")
     rec.count("states-compared", info.get("compared", 0))
+    rec.count("parsed-circuits-compared-with-the-program-as-written", info.get("written", 0))
     rec.count("unitary-evaluations-observed", info.get("events", 0))
     rec.count("n=%d" % info["n"])
     rec.count("gate-set-variant:" + case.get("variant", "A"))
@@ -303,6 +318,53 @@ def moved_alias_probe(rng, maxn):
     return ("circuit",) + tuple(hdr) + tuple(macros) + tuple(body), {"s": s1}
 
 
+TWIN_INTS = [(2 ** 53, 2 ** 53 + 1), (2 ** 53 + 1, 2 ** 53 + 2), (2 ** 63 - 1, 2 ** 63 + 1), (10 ** 30 + 1, 10 ** 30 + 3), (-(2 ** 53) - 1, -(2 ** 53)),
+             (2 ** 64 + 5, 2 ** 64 + 2), (7, 7 + 2 ** 60), (1, 9)]
+TWIN_FLOATS = [(0.1, 0.10000000000000002), (1.0, 1.0000000000000002), (3.141592653589793, 3.1415926535897936), (1e-300, 2e-300),
+               (0.5, 0.5000001), (2.0, 2), (1e16, 1e16 + 2), (0.30000000000000004, 0.3)]
+
+
+def near_twin_section(rng, prog):
+    """One more prepare/measure section in which one gate is applied to one qubit two or three times with classical
+    arguments that are different numbers but near twins: integers that the same double stands for, doubles one ulp
+    apart, an integer and the float of that value.  Each application is the gate at ITS argument."""
+    reg = [s for s in prog[1:] if s[0] == "register"]
+    if len(reg) != 1 or not isinstance(reg[0][2], int) or any(s[0] == "macro" and s[1] == "vftwin" for s in prog[1:]):
+        return prog, 0
+    name, n = reg[0][1], reg[0][2]
+    q = ("array_item", name, rng.randrange(n))
+    if rng.random() < 0.5:
+        a, b = rng.choice(TWIN_INTS)
+        mk = lambda v: ("gate", "PW", q, v)  # noqa: E731
+    else:
+        a, b = rng.choice(TWIN_FLOATS)
+        gname = rng.choice(["Rz", "Rx", "CP"])
+        if gname == "CP" and n >= 2:
+            q2 = ("array_item", name, (q[2] + 1) % n)
+            mk = lambda v: ("gate", "CP", q, v, q2)  # noqa: E731
+        else:
+            gname = "Rz" if gname == "CP" else gname
+            mk = lambda v: ("gate", gname, q, v)  # noqa: E731
+    if rng.random() < 0.5:
+        a, b = b, a
+    seq = [mk(a), mk(b)] + ([mk(a)] if rng.random() < 0.4 else [])
+    shape = rng.choice(["flat", "loop", "macro", "macro-in-loop"])
+    macros = []
+    if shape == "flat":
+        sec = seq
+    elif shape == "loop":
+        sec = [("loop", 2, ("sequential_block",) + tuple(seq))]
+    else:
+        macros = [("macro", "vftwin", "vfa", "vfv", ("sequential_block", ("gate",) + (mk("vfv")[1],) + tuple("vfa" if x == q else x for x in mk("vfv")[2:])))]
+        calls = [("gate", "vftwin", q, g_[3] if g_[1] != "CP" else g_[3]) for g_ in seq]
+        sec = calls if shape == "macro" else [("loop", 2, ("sequential_block",) + tuple(calls))]
+    items = list(prog[1:])
+    k = max([j for j, s in enumerate(items) if s[0] in sx.HEADER or s[0] == "macro"], default=-1)
+    items = items[:k + 1] + macros + items[k + 1:]
+    items += [("gate", "prepare_all"), ("gate", "H", q)] + sec + [("gate", "measure_all")]
+    return ("circuit",) + tuple(items), 1
+
+
 def make_override(rng, prog):
     ov = {}
     for s in prog[1:]:
@@ -341,6 +403,9 @@ def shard(ctx):
             if rng.random() < 0.12:
                 prog, nr = repeat_prepare(rng, prog)
                 rec.count("sections-with-a-repeated-prepare", nr)
+            if rng.random() < 0.15:
+                prog, nt = near_twin_section(rng, prog)
+                rec.count("sections-applying-a-gate-at-near-twin-arguments", nt)
             case = {"prog": prog}
             if rng.random() < 0.3:
                 ov = make_override(rng, prog)
